@@ -432,3 +432,20 @@ def minlen(p):
     if k == 'name':
         return minlen(p[2])
     raise ValueError(k)
+
+
+def fixed_len(p):
+    """Mirror of GenParse.fixed_len (generator steering only, not an oracle)."""
+    k = p[0]
+    if k in ('c', 'any', 'cls'):
+        return 1
+    if k == 'str':
+        return len(p[1])
+    if k == 'cat':
+        a, b = fixed_len(p[1]), fixed_len(p[2])
+        return None if a is None or b is None else a + b
+    if k == 'flags':
+        return fixed_len(p[5])
+    if k == 'name':
+        return fixed_len(p[2])
+    return None
